@@ -333,4 +333,32 @@ MUTANTS = {
         "props": ["C12"],
         "edits": [(ST, "        is_self = has_self and arg_idx == 0", "        is_self = has_self and arg_idx == 0 and name == \"self\"")],
     },
+    "c13_replicate_overrides": {
+        "props": ["C13"],
+        "edits": [(ST, "            (existing_annotation_strategy == ExistingAnnotationStrategy.IGNORE)\n            or not annotated", "            (existing_annotation_strategy == ExistingAnnotationStrategy.IGNORE)\n            or not annotated\n            or (typ is not inspect.Parameter.empty and arg_idx > 2)")],
+    },
+    "c13_omit_leaves": {
+        "props": ["C13"],
+        "edits": [(ST, "            annotated\n            and existing_annotation_strategy == ExistingAnnotationStrategy.OMIT\n        ):", "            annotated\n            and existing_annotation_strategy == ExistingAnnotationStrategy.OMIT\n            and param.default is inspect.Parameter.empty\n        ):")],
+    },
+    "c13_optional_wrap_dropped": {
+        "props": ["C13"],
+        "edits": [(ST, "        if not _is_optional(anno) and param.default is None:\n            anno = Optional[anno]\n        rendered", "        rendered")],
+    },
+    "c13_iterator_generator_inverted": {
+        "props": ["C13"],
+        "edits": [(ST, "        (return_type is None) or (return_type == NoneType)\n    ):", "        (return_type is None)\n    ):")],
+    },
+    "c13_omit_return_kept": {
+        "props": ["C13"],
+        "edits": [(ST, "        if existing_annotation_strategy == ExistingAnnotationStrategy.OMIT:\n            return sig.replace(return_annotation=inspect.Signature.empty)", "        if existing_annotation_strategy == ExistingAnnotationStrategy.OMIT and yield_type is None:\n            return sig.replace(return_annotation=inspect.Signature.empty)")],
+    },
+    "c13_ignore_flag_swapped": {
+        "props": ["C13", "C01"],
+        "edits": [("monkeytype/cli.py", "        const=ExistingAnnotationStrategy.OMIT,\n        help=\"Omit from stub any existing", "        const=ExistingAnnotationStrategy.IGNORE,\n        help=\"Omit from stub any existing")],
+    },
+    "c13_generator_send_type": {
+        "props": ["C13"],
+        "edits": [(ST, "        anno = make_generator(yield_type, NoneType, return_type)", "        anno = make_generator(yield_type, return_type, return_type)")],
+    },
 }
